@@ -33,7 +33,7 @@ def replay(verdict, exe, res, seed=0, tag="scan", sigprefix="scan"):
         desc = "; ".join("c%d:%s" % (e["c"], e["e"]) for e in b["hist"])
         distinct.add(desc)
         verdict.cov["traces_validated_against_impl"] += 1
-        rep = {"history": [(e["c"], e["e"], b2s(e["text"])) for e in b["hist"]]}
+        rep = {"history": [(e["c"], e["e"], b2s(e["text"])) for e in b["hist"]], "script": "\n".join(scripts_by_id[bid])}
         if g is None:
             raise ModelError("no output")
         if g["crash"]:
